@@ -48,3 +48,14 @@ Lemma ex_run :
     (3, true, 0, [(4, tE)]);
     (0, false, 0, []) ].
 Proof. vm_compute. reflexivity. Qed.
+
+(** the luna_pinyin chain over concrete oracles: one-to-many conversion (U+4E8C -> U+4E8C, U+4E00), a
+    conversion that creates a duplicate (U+4E01 -> U+4E00), a second simplifier, then the uniquifier *)
+Definition ex_simp_menu : menu :=
+  menu_of [SpFifo [cd [0x4E01%N] 1 0 5; cd [0x4E8C%N] 2 0 4; cd [0x4E00%N] 3 0 3; cd [66%N; 0x4E01%N] 1 0 1]]
+          [FSimplifier (dict_conv dict_a); FSimplifier (dict_conv dict_b); FUniquifier].
+
+Lemma ex_simp_list :
+  map (fun c => (c_text c, c_comment c, c_uniq c)) (full_list ex_simp_menu) =
+  [([0x4E01%N], 1%N, 3); ([0x4E8C%N], 2%N, 0); ([66%N; 0x4E01%N], 1%N, 1)].
+Proof. vm_compute. reflexivity. Qed.
